@@ -70,10 +70,15 @@ def run_model(ctx, model, pool, n):
     ctx.block()
 
 
-def task(prop, seed, size, cfgbins, which='avx2'):
+def make(seed, size, which='avx2'):
     ctx = core.Ctx(seed, prefix='y%d_' % (seed % 100000))
     pool = vals.point_pool(ctx.rng, 32)
     run_model(ctx, vm.Avx2 if which == 'avx2' else vm.Ifma, pool, size)
+    return ctx
+
+
+def task(prop, seed, size, cfgbins, which='avx2'):
+    ctx = make(seed, size, which=which)
     return core.run_and_judge(prop, ctx, cfgbins, compare=False)
 
 
